@@ -165,4 +165,16 @@ PROPS.update({
     },
 })
 
+PROPS.update({
+    "C17": {
+        "title": "Out-of-domain requests are refused",
+        "rule": GEN + "Every generated in-domain pipeline must not be refused or abort (setup, trim, commit, batch_open, batch_check). Around it, out-of-domain requests with magnitudes at the boundary (supported+1, supported+2, max+1, 0): query for an unknown polynomial (batch_open, batch_check, open_combinations), missing evaluation, missing commitment, degree beyond the key, hiding beyond the key / zero (where declared unsupported) / without RNG, bound below the degree / beyond the key (commit and verifier side), zero degree / zero or missing variables at setup, wrong number of variables (Hyrax, Brakedown, multilinear PST: larger and smaller), point of the wrong length, mismatched labels (Hyrax, IPA), KZG10 direct API. Oracle: the outcome is Err or panic (for verification calls: not accept); which of the two is reported in observed_counters, not judged." + DIST,
+        "required_classes": ["in-domain-no-abort", "unknown-polynomial", "missing-evaluation", "degree-beyond-key", "hiding-beyond-key", "hiding-without-rng", "bound-beyond-key", "setup-degree-zero", "wrong-num-vars[larger]", "wrong-num-vars[smaller]", "point-length-mismatch", "mismatched-labels"],
+        "technique": "runtime monitoring: boundary-magnitude request injection with outcome classification (Ok / Err / panic) via catch_unwind",
+        "level_text": "Each refusal boundary of each scheme is probed from both sides on generated configurations; the in-domain side reuses the honest-workload generator so that a refusal introduced for valid inputs is caught as well.",
+        "design_ref": "5 (C17)",
+        "assumptions": TRUST + ["domain table of DESIGN.md section 4 (lenient readings: KZG-family hiding bound 0 and Marlin bounds in (supported, max] are not required to be refused)"],
+    },
+})
+
 ALL_IDS = ["C%02d" % i for i in range(1, 20)]
